@@ -187,6 +187,12 @@ func (sw *SessionWindow) Add(data any) {
 		}
 		if sw.watermark != nil {
 			sw.watermark.UpdateEventTime(timestamp)
+			if sw.watermark.IsFarFuture(timestamp) {
+				// Corrupt far-future timestamp: the watermark ignores it, so a session
+				// extended to it could never expire and would swallow every later
+				// event of the key. Drop it instead of poisoning the key's session.
+				return
+			}
 			if sw.watermark.IsEventTimeLate(timestamp) {
 				allowedLateness := sw.config.AllowedLateness
 				if allowedLateness > 0 {
